@@ -13,3 +13,7 @@ DataIndexEntry = rec_from_source(REPO, "dvc_data.index.index:DataIndexEntry", ov
 
 AnyVal = TAbs("AnyVal")  # result of an opaque comparison-key callable
 MetaKeyFn = TFn(TOpt(Meta), AnyVal)
+
+# object-level diff records (hashfile/diff.py)
+TreeEntry = rec_from_source(REPO, "dvc_data.hashfile.diff:TreeEntry", overrides={"key": TKey})
+Change = rec_from_source(REPO, "dvc_data.hashfile.diff:Change", overrides={"old": TreeEntry, "new": TreeEntry})
